@@ -161,6 +161,9 @@ class Driver(object):
         self.dropped_family = 0
         self.last_pages = []
         self.sess = None      # pagination session in progress
+        self.just_created = False
+        self.just_reopened = False
+        self.fresh_n = 0
 
     def family_ok(self, lrus):
         rules = [self.default] + list(self.ram.values())
@@ -180,6 +183,22 @@ class Driver(object):
             we.setdefault(wid, []).append(lru)
         if self.sess is not None and rng.random() < self.profile.get("continue", 0.6):
             return dict(self.sess)
+        # persistence pattern: close and reopen right after a request that issued webentity ids,
+        # then create again (what a counter kept only in RAM breaks)
+        if self.backend == "file" and self.weights.get("Reopen", 0) > 0:
+            if self.just_created and rng.random() < self.profile.get("persist", 0.45):
+                self.just_created = False
+                self.just_reopened = True
+                op = self.make("Reopen", we)
+                self.note(op)
+                return op
+            if self.just_reopened and rng.random() < 0.8:
+                self.just_reopened = False
+                self.fresh_n += 1
+                # a creation that certainly issues an id: a prefix nobody owns yet
+                op = {"op": "CreateWe", "ps": [u.page() + b"p:n%d|" % self.fresh_n]}
+                self.note(op)
+                return op
         for _ in range(50):
             name = rng.choices(list(self.weights), weights=list(self.weights.values()))[0]
             op = self.make(name, we)
@@ -202,6 +221,7 @@ class Driver(object):
 
     def feedback(self, op, res):
         """Result of the request just executed (pagination sessions continue with its token)."""
+        self.just_created = bool(res.get("created"))
         if op["op"] in ("Paginate", "PagLinks"):
             ret = res.get("ret")
             if res["exc"] or not isinstance(ret, dict) or ret.get("done") or not ret.get("token"):
